@@ -215,6 +215,7 @@ func (x *Exec) step(fr *frame, st *State, ins ssa.Instruction) {
 	if fr.con != nil && len(fr.con.Asserts) > 0 && fr.depth == 0 {
 		x.checkAsserts(fr, st, ins)
 	}
+	x.countCall(fr, st, ins)
 	switch t := ins.(type) {
 	case *ssa.DebugRef:
 	case *ssa.Alloc:
